@@ -217,6 +217,43 @@ Fixpoint enc_eval (d : db) (t : term) : option val :=
       end
   end.
 
+(* ---------------------------------------------------------------- well-sorted commands *)
+
+(** what the typechecker accepts for a constructor-only signature: constructor applications whose
+    eq-sort arguments are constructor applications and whose base arguments are literals *)
+Fixpoint args_ty (rec : term -> bool) (ks : list bool) (l : list term) {struct l} : bool :=
+  match l, ks with
+  | [], [] => true
+  | x :: l', true :: ks' => rec x && args_ty rec ks' l'
+  | TI _ :: l', false :: ks' => args_ty rec ks' l'
+  | _, _ => false
+  end.
+
+Fixpoint term_ty (sg : sigT) (t : term) : bool :=
+  match t with
+  | TI _ => false
+  | T f ts =>
+      match nth_error sg f with
+      | Some kinds =>
+          (fix go (ks : list bool) (l : list term) {struct l} : bool :=
+             match l, ks with
+             | [], [] => true
+             | x :: l', true :: ks' => term_ty sg x && go ks' l'
+             | TI _ :: l', false :: ks' => go ks' l'
+             | _, _ => false
+             end) kinds ts
+      | None => false
+      end
+  end.
+
+Definition cmd_ty (sg : sigT) (c : cmd) : bool :=
+  match c with
+  | CAdd t => term_ty sg t
+  | CUnion a b => term_ty sg a && term_ty sg b
+  end.
+
+Definition cmds_ty (sg : sigT) (cs : list cmd) : bool := forallb (cmd_ty sg) cs.
+
 (* ---------------------------------------------------------------- cases written by h_modes *)
 
 Definition oval_eqb (a b : option val) : bool :=
@@ -258,7 +295,10 @@ Definition native_classes (c : mcase) : option (list Z) :=
   | _ => None
   end.
 
+(** the session is well-sorted (the hypothesis of the session theorems), and the class vectors of
+    the encoded model and of the native model both equal the one observed on the real engine *)
 Definition check_case (c : mcase) : bool :=
+  cmds_ty (c_sig c) (c_cmds c) &&
   match enc_classes c, native_classes c with
   | Some a, Some b => list_eqb Z.eqb a (c_classes c) && list_eqb Z.eqb b (c_classes c)
   | _, _ => false
